@@ -391,8 +391,8 @@ def run(ctx, tier, seed, shard, nshards):
             ref_log, ref_outs, _ = REF.run_ops(model, ops, truth)
             real = [tuple(e) for e in b["log"]]
             ok = H.traces_match([H.norm_event(e) for e in ref_log], real) or any(v for v in b["errors"].values())
-        except REF.RefInconsistency:
-            ok = True
+        except (REF.RefInconsistency, REF.DefError, KeyError):
+            ok = True  # a class of this program is (expectedly) rejected at definition: no reference trace
         if not ok:
             ctx.fail("enabled-vs-reference", case, "explicitly enabled contracts do not follow the reference trace in the "
                                                    "normal interpreter: %r" % (H.first_diff([H.norm_event(e) for e in ref_log], real),))
